@@ -52,6 +52,8 @@ def check(rep, an, tier):
     for cfg in lsq_configs(tier, AXES):
         res = run(an, cfg, spec)
         CC.membership_frames(rep, res, entry)
+        CC.vertex_set(rep, res, entry)
+        CC.bounded_consistency(rep, res, entry, "finite")
         F.qty(rep, res, entry, allow=allow, subs=("mismatch", "literal"))
         R.rule_type_errors(rep, res, "SHAPE", "R-SHAPE", entry)
         R.rule_purity(rep, res, entry)
@@ -79,6 +81,11 @@ def check(rep, an, tier):
                     rep.check("R-QTY", f"fallback fit does not re-apply {p}", v is None or (v.known and v.const is None), where=ev.loc,
                               construct=f"lsq_linear(… {p}= …) in range_of_solutions", entry=entry, config=res.config,
                               msg=f"{p} is applied a second time in the best-fit fallback")
+                for p_, o_ in (("A", "A"), ("lb", "lb"), ("ub", "ub")):
+                    v = bound.get(p_)
+                    rep.check("R-FORWARD", f"fallback fit is bounded by {o_}" if p_ != "A" else "fallback fit uses the adapted A",
+                              v is not None and o_ in v.flat().data, where=ev.loc, construct=f"lsq_linear(… {p_}= …) in range_of_solutions",
+                              entry=entry, config=res.config, msg=f"`{p_}` is not passed to the best-fit fallback: the 'best fit' ignores the bounds")
                 b = bound.get("B")
                 if b is not None and cfg["baseline"]:
                     rep.check("R-QTY", "fallback fit receives the baseline-free target", None if b.flat().frame is None else b.flat().frame == "LIGHT",
